@@ -47,7 +47,7 @@ var initAllow = map[string]bool{
 }
 
 var initAllowed = map[string]bool{
-	"internal/strconv": true, "internal/itoa": true, "internal/stringslite": true, "internal/byteorder": true,
+	"internal/strconv": true, "internal/oserror": true, "internal/itoa": true, "internal/stringslite": true, "internal/byteorder": true,
 	"net/url": true, "path/filepath": false, "io/fs": true, "bufio": true, "time": false,
 }
 
